@@ -13,7 +13,7 @@ for d in sorted(glob.glob(os.path.join(HERE, "seeded", "C*-*"))):
     if len(summary) < 40 and len(first) > 1:
         summary += ": " + first[1]
     summary = summary.replace("|", "/")[:230]
-    pid = m["property"]
+    pid = m.get("evaluate_with") or m["property"]
     chk = (m.get("checks") or {}).get(pid, {})
     keys = ", ".join("`%s`" % k for k in chk.get("keys", [])[:2]) or "-"
     history = m.get("history", "")
